@@ -66,6 +66,12 @@ func (w *binaryWriter) WriteNull() error {
 
 // WriteNullType writes a typed null.
 func (w *binaryWriter) WriteNullType(t Type) error {
+	if w.err == nil && int(t) >= len(binaryNulls) {
+		w.err = &UsageError{"Writer.WriteNullType", "not an Ion type"}
+	}
+	if w.err != nil {
+		return w.err
+	}
 	return w.writeValue("Writer.WriteNullType", []byte{binaryNulls[t]})
 }
 
